@@ -59,7 +59,11 @@ static void draw_list(int sorted)
 #endif
     }
     for (int k = 0; k < NL; k++) {
+#ifdef CANON
+        ord[k] = k < NI ? k : 0;        /* canonical naming: the list is e0,e1,...; see spec (symmetry of the item objects) */
+#else
         ord[k] = IN_RANGE(0, NI - 1);
+#endif
         if (k < n) { VASSUME(!inl[ord[k]]); inl[ord[k]] = 1; }
     }
     if (sorted) for (int k = 0; k + 1 < NL; k++) if (k + 1 < n) VASSUME(prio[ord[k]] >= prio[ord[k + 1]]);
@@ -69,7 +73,12 @@ static void draw_ring(int lo)
 {
     m = IN_RANGE(lo, NR);
     for (int k = 0; k < NR; k++) {
+#ifdef CANON
+        rord[k] = n + k < NI ? n + k : 0;
+        if (k < m) VASSUME(n + k < NI);
+#else
         rord[k] = IN_RANGE(0, NI - 1);
+#endif
         if (k < m) { VASSUME(!inl[rord[k]]); inl[rord[k]] = 2; }
     }
 }
@@ -514,11 +523,15 @@ int main(void)
       VASSERTM(perm, "sort: result is a permutation of the input items"); }
     { int asc = 1, desc = 1;
       for (int k = 0; k + 1 < NL; k++) if (k + 1 < gn) { if (prio[got[k]] > prio[got[k + 1]]) asc = 0; if (prio[got[k]] < prio[got[k + 1]]) desc = 0; }
-#ifdef SORT_ASC
-      VASSERTM(asc, "sort: result is in non-decreasing ('natural') order of the comparison value");
-#else
+      /* list.h documents "Natural order is used to sort the items"; the merge step takes the LOWER element first,
+       * i.e. the result is non-decreasing in the comparison value (NOT the non-increasing order that
+       * push_sorted/chain_sorted maintain; both in-tree callers re-insert through chain_sorted). */
+#ifdef SORT_DESC
       VASSERTM(desc, "sort: result is in non-increasing priority order (the order push_sorted/chain_sorted maintain)");
+#else
+      VASSERTM(asc, "sort: result is monotone: non-decreasing ('natural') order of the comparison value");
 #endif
+      (void)asc; (void)desc;
     }
     VASSERTM(unlocked(), "sort: lock released");
     { int ties = 0; for (int k = 0; k + 1 < NL; k++) if (k + 1 < n && prio[ord[k]] == prio[ord[k + 1]]) ties = 1;
